@@ -160,7 +160,7 @@ def hansenlaw_transform(image, dr=1, direction='inverse', hold_order=0,
                     -47391.1])
 
     image = np.atleast_2d(image)   # 2D input image
-    aim = np.empty_like(image)  # Abel transform array
+    aim = np.zeros_like(image)  # Abel transform array
     rows, cols = image.shape
 
     if direction == 'forward':
